@@ -84,9 +84,13 @@ def extOf (j : Option Json) : R Ext := do
 
 /-! results -/
 
-def tripIdJ (t : TripID) : Json :=
-  jObj [("id", jStr t.id), ("route", jStr t.route), ("dir", jInt t.dir), ("hasStartTime", jBool t.hasStartTime),
-        ("startTime", jInt t.startTime), ("hasStartDate", jBool t.hasStartDate), ("startDate", jInt t.startDate), ("sr", jInt t.sr)]
+/-- with the configured zone's table: also the instant at which the start date is surfaced -/
+def tripIdJ (zt : Option Zone.Table) (t : TripID) : Json :=
+  jObj ([("id", jStr t.id), ("route", jStr t.route), ("dir", jInt t.dir), ("hasStartTime", jBool t.hasStartTime),
+        ("startTime", jInt t.startTime), ("hasStartDate", jBool t.hasStartDate), ("startDate", jInt t.startDate), ("sr", jInt t.sr)] ++
+       (match zt with
+        | none => []
+        | some z => [("startDateUnix", jOpt jInt (if t.hasStartDate then z.instant t.startDate else none))]))
 
 def vehIdJ (v : VehicleID) : Json := jObj [("id", jStr v.id), ("label", jStr v.label), ("licensePlate", jStr v.licensePlate)]
 
@@ -106,27 +110,27 @@ def vehDataJ (v : VehData) : Json :=
         ("congestionLevel", jInt v.congestionLevel), ("occupancyStatus", jOpt jInt v.occupancyStatus),
         ("occupancyPercentage", jOpt jNat v.occupancyPercentage), ("inMessage", jBool v.inMessage)]
 
-def tripDataJ (t : TripData) : Json :=
-  jObj [("id", tripIdJ t.id), ("stus", jList stuJ t.stus), ("inMessage", jBool t.inMessage)]
+def tripDataJ (zt : Option Zone.Table) (t : TripData) : Json :=
+  jObj [("id", tripIdJ zt t.id), ("stus", jList stuJ t.stus), ("inMessage", jBool t.inMessage)]
 
-def tripOutJ (t : TripOut) : Json := jObj [("data", tripDataJ t.data), ("vehicle", jOpt vehDataJ t.vehicle)]
-def vehOutJ (v : VehicleOut) : Json := jObj [("data", vehDataJ v.data), ("trip", jOpt tripDataJ v.trip)]
+def tripOutJ (zt : Option Zone.Table) (t : TripOut) : Json := jObj [("data", tripDataJ zt t.data), ("vehicle", jOpt vehDataJ t.vehicle)]
+def vehOutJ (zt : Option Zone.Table) (v : VehicleOut) : Json := jObj [("data", vehDataJ v.data), ("trip", jOpt (tripDataJ zt) v.trip)]
 
-def informedJ (e : InformedOut) : Json :=
+def informedJ (zt : Option Zone.Table) (e : InformedOut) : Json :=
   jObj [("agencyId", jOpt jStr e.agencyId), ("routeId", jOpt jStr e.routeId), ("routeType", jInt e.routeType), ("dir", jInt e.dir),
-        ("tripId", jOpt tripIdJ e.tripId), ("stopId", jOpt jStr e.stopId)]
+        ("tripId", jOpt (tripIdJ zt) e.tripId), ("stopId", jOpt jStr e.stopId)]
 
 def textJ (t : Str × Str) : Json := jObj [("text", jStr t.1), ("language", jStr t.2)]
 
-def alertJ (a : AlertOut) : Json :=
+def alertJ (zt : Option Zone.Table) (a : AlertOut) : Json :=
   jObj [("id", jStr a.id), ("cause", jInt a.cause), ("effect", jInt a.effect),
         ("activePeriods", jList (fun p => jObj [("start", jOpt jInt p.1), ("end", jOpt jInt p.2)]) a.activePeriods),
-        ("informed", jList informedJ a.informed), ("header", jList textJ a.header), ("description", jList textJ a.description),
+        ("informed", jList (informedJ zt) a.informed), ("header", jList textJ a.header), ("description", jList textJ a.description),
         ("url", jList textJ a.url)]
 
-def resultJ (r : Result) : Json :=
-  jObj [("createdAt", jInt r.createdAt), ("trips", jList tripOutJ r.trips), ("vehicles", jList vehOutJ r.vehicles),
-        ("alerts", jList alertJ r.alerts)]
+def resultJ (zt : Option Zone.Table) (r : Result) : Json :=
+  jObj [("createdAt", jInt r.createdAt), ("trips", jList (tripOutJ zt) r.trips), ("vehicles", jList (vehOutJ zt) r.vehicles),
+        ("alerts", jList (alertJ zt) r.alerts)]
 
 def permute {α} (l : List α) (p : List Nat) : List α := p.filterMap fun i => l[i]?
 
@@ -135,7 +139,8 @@ def handle (j : Json) : R Json := do
   let m ← msgOf (← field j "msg")
   let ext ← extOf (fieldOpt j "ext")
   let orders ← getList (asList asNat) j "orders"
-  let perms := orders.map fun p => resultJ (parse ext { m with entities := permute m.entities p })
-  return jObj [("result", resultJ (parse ext m)), ("perms", Json.arr perms.toArray)]
+  let zt ← getOpt tableOf j "zoneTable"
+  let perms := orders.map fun p => resultJ zt (parse ext { m with entities := permute m.entities p })
+  return jObj [("result", resultJ zt (parse ext m)), ("perms", Json.arr perms.toArray)]
 
 end Gtfs.DRt
